@@ -104,6 +104,7 @@ fn main() {
     if flag(&args, "--poison") {
         talloc::POISON.store(true, std::sync::atomic::Ordering::Relaxed);
     }
+    engine::SHRINK_BUDGET.store(argn(&args, "--shrink-budget", if cfg!(miri) { 12 } else { 400 }) as usize, std::sync::atomic::Ordering::Relaxed);
     match cmd {
         "run" => {
             let ctx = Ctx {
